@@ -156,7 +156,7 @@ def run(eng, ctx):
             continue
         if isinstance(r, TableVal) and r.table in FIELD_TABLES:
             k = r.key
-            if k.is_lit() and k.text() == key and r.proj == (3,):
+            if k.is_lit() and k.text() == key and r.proj in ((3,), (-1,)):  # descriptors are 4-tuples: [-1] is the description too
                 continue
             if k.is_lit() and k.text() != key:
                 what = "wrong field" if k.text() in T.fields else "KeyError"
